@@ -183,7 +183,7 @@ pub fn generate(a: &Args) {
         }
     }
     // random matrices of every density, with empty rows/columns and the all-zero matrix
-    let nrand = if th { 1500 } else { 160 };
+    let nrand = if th { 5000 } else { 160 };
     for i in 0..nrand {
         let (nr, nc) = if i % 10 == 9 { (20 + rng.below(21), 30 + rng.below(31)) } else { (1 + rng.below(12), 1 + rng.below(16)) };
         let dens = [0u64, 3, 10, 25, 50, 80, 100][i % 7];
@@ -206,7 +206,7 @@ pub fn generate(a: &Args) {
     for t in corpus.iter() {
         parse_event(&mut out, t, "valid");
     }
-    let nmut = if th { 30000 } else { 2500 };
+    let nmut = if th { 120000 } else { 2500 };
     for i in 0..nmut {
         let base = &corpus[rng.below(corpus.len())];
         let mut t = mutate(&mut rng, base);
@@ -215,7 +215,7 @@ pub fn generate(a: &Args) {
         }
         parse_event(&mut out, &t, "mutated");
     }
-    let nsoup = if th { 10000 } else { 1200 };
+    let nsoup = if th { 40000 } else { 1200 };
     for _ in 0..nsoup {
         let t = soup(&mut rng);
         parse_event(&mut out, &t, "soup");
